@@ -143,9 +143,71 @@ static int family_residue(void)
         return 0;
 }
 
+/* Argument texts whose length is exactly the capacity of the command buffer, one less, one and two more, for every line
+ * ending and CR placement: a valid text of capacity-1 bytes is accepted whatever ends the line (CR is never stored). */
+static int family_capfit(void)
+{
+        int idx = 0;
+        static const int CAPS[] = {6, 7, 8, 9, 16, 17, 33};
+        for (int ti = 0; ti < 4; ti++)           /* 0 hex buffer, 1 string, 2 string with escapes, 3 two variables (hex , string) */
+        for (int ci = 0; ci < 7; ci++)
+        for (int layout = 0; layout < 3; layout++, idx++) {
+                if (idx % SW.nshards != SW.shard) continue;
+                int cap = CAPS[ci];
+                struct wcmd *c = sw_table(1);
+                strcpy(c[0].name, "+B");
+                c[0].hmask = (idx & 1) ? HM_W : 0;
+                c[0].nvar = (uint8_t)(ti == 3 ? 2 : 1);
+                for (int i = 0; i < c[0].nvar; i++) {
+                        struct wvar *v = &c[0].var[i];
+                        memset(v, 0, sizeof *v);
+                        v->wcb = 1; v->size = 40; v->access = CAT_VAR_ACCESS_READ_WRITE;
+                        v->type = (ti == 0 || (ti == 3 && i == 0)) ? CAT_VAR_BUF_HEX : CAT_VAR_BUF_STRING;
+                }
+                sw_caps(cap, layout);
+                W.line_max = 120; W.mon = P_ALL;
+                world_build();
+                snprintf(SW.extra, sizeof SW.extra, "family=capfit kind=%d cap=%d layout=%d", ti, cap, layout);
+                for (int len = cap - 3; len <= cap + 2; len++) {
+                        if (len < 2) continue;
+                        uint8_t t[80]; int n = 0;
+                        /* a syntactically valid text of exactly len bytes (when the kind allows that length) */
+                        if (ti == 0) { if (len & 1) continue; for (int i = 0; i < len; i++) t[n++] = (uint8_t)"A1b2"[i & 3]; }
+                        else if (ti == 1) { t[n++] = '"'; for (int i = 0; i < len - 2; i++) t[n++] = (uint8_t)('a' + i % 26); t[n++] = '"'; }
+                        else if (ti == 2) { if (len < 4) continue; t[n++] = '"'; t[n++] = '\\'; t[n++] = 'n'; for (int i = 0; i < len - 4; i++) t[n++] = 'x'; t[n++] = '"'; }
+                        else { if (len < 5) continue; t[n++] = 'A'; t[n++] = '1'; t[n++] = ','; t[n++] = '"'; for (int i = 0; i < len - 5; i++) t[n++] = 'q'; t[n++] = '"'; }
+                        if (n != len) mcx_fatal("capfit text length");
+                        /* endings: LF, CR LF, CR CR LF; CR at every inner position with LF / CR LF */
+                        for (int e = 0; e < 3; e++) {
+                                uint8_t line[120]; int k = 0;
+                                memcpy(line, "AT+B=", 5); k = 5;
+                                memcpy(line + k, t, (size_t)n); k += n;
+                                for (int r = 0; r < e; r++) line[k++] = '\r';
+                                line[k++] = '\n';
+                                SW.cases++;
+                                if (sw_line(line, k)) return 1;
+                        }
+                        for (int cp = 0; cp <= n; cp++)
+                                for (int e = 0; e < 2; e++) {
+                                        uint8_t line[120]; int k = 0;
+                                        memcpy(line, "AT+B=", 5); k = 5;
+                                        memcpy(line + k, t, (size_t)cp); k += cp;
+                                        line[k++] = '\r';
+                                        memcpy(line + k, t + cp, (size_t)(n - cp)); k += n - cp;
+                                        if (e) line[k++] = '\r';
+                                        line[k++] = '\n';
+                                        SW.cases++;
+                                        if (sw_line(line, k)) return 1;
+                                }
+                }
+        }
+        return 0;
+}
+
 int main(int argc, char **argv)
 {
         sw_init(argc, argv, "buffers");
+        if (!strcmp(sw_args(argc, argv, "--family", "texts"), "capfit")) { family_capfit(); char tg[64]; snprintf(tg, sizeof tg, "buffers-capfit-%d", SW.shard); return sw_finish(tg); }
         if (!strcmp(sw_args(argc, argv, "--family", "texts"), "residue")) { family_residue(); char tg[64]; snprintf(tg, sizeof tg, "buffers-residue-%d", SW.shard); return sw_finish(tg); }
         int lite = sw_argi(argc, argv, "--lite", 0);
         g_lite = lite;
